@@ -332,6 +332,88 @@ def build(rec: dict):
     return e
 
 
+# provenance of the object that is stored: the same record, reached through different public constructions
+HOWS = {
+    "mol": ["plain", "reparented", "shallow", "shallow-orphan", "copy-ctor", "conformer", "substructure-copy", "edited"],
+    "ens": ["plain", "reparented", "shallow", "shallow-orphan", "copy-ctor", "from-molecules"],
+}
+
+
+def build_variant(rec: dict, how: str):
+    """(object to store, objects that must stay alive until it is stored).  All through the public API:
+      plain             the constructors of `build`
+      reparented        afterwards ANOTHER molecule is built from the very same Atom objects in reversed order
+                        (copy_atoms is False by default), so every atom's parent is that other object
+      shallow           copy.copy(obj), the source stays alive
+      shallow-orphan    copy.copy(obj), the source is deleted and collected (atoms' parent reference is dead)
+      copy-ctor         Molecule(obj) / ConformerEnsemble(obj), the source is collected
+      conformer         (mol) row 1 of a two-conformer ensemble, stored as a molecule
+      substructure-copy (mol) Molecule(Substructure(bigger molecule, first atoms))
+      edited            (mol) built with an extra first atom bonded to the next one, then del_atom(extra): indices shift
+      from-molecules    (ens) ConformerEnsemble([molecule per conformer]), then another molecule re-parents its atoms
+    The record that counts is snapshot(object)."""
+    import copy
+    import gc
+    import numpy as np
+    import molli as ml
+    kind = rec["kind"]
+    if how == "plain":
+        return build(rec), []
+    if how == "reparented":
+        o = build(rec)
+        n = len(o.atoms)
+        other = ml.Molecule(list(reversed(o.atoms)), name="other", coords=np.zeros((n, 3)))
+        for i in range(n - 1):
+            other.connect(i, i + 1)
+        return o, [other]
+    if how == "shallow":
+        src = build(rec)
+        return copy.copy(src), [src]
+    if how == "shallow-orphan":
+        src = build(rec)
+        o = copy.copy(src)
+        del src
+        gc.collect()
+        return o, []
+    if how == "copy-ctor":
+        src = build(rec)
+        o = ml.Molecule(src) if kind == "mol" else ml.ConformerEnsemble(src)
+        del src
+        gc.collect()
+        return o, []
+    if how == "conformer" and kind == "mol":
+        na = len(rec["atoms"])
+        e = build({**rec, "kind": "ens", "coords": [[[0.0] * 3 for _ in range(na)], rec["coords"]],
+                   "weights": [1.0, 1.0], "charges": [[0.0] * na, rec["charges"]]})
+        return e[1], [e]
+    if how == "substructure-copy" and kind == "mol":
+        big = build(rec)
+        k = max(1, (2 * len(big.atoms)) // 3) if big.atoms else 0
+        o = ml.Molecule(ml.Substructure(big, list(range(k))))
+        return o, [big]
+    if how == "edited" and kind == "mol":
+        r2 = copy.deepcopy(rec)
+        r2["atoms"].insert(0, [6, None, "extra", 1, 0, 0, 0, 0, {}])
+        r2["bonds"] = [[b[0] + 1, b[1] + 1] + b[2:] for b in r2["bonds"]]
+        if len(r2["atoms"]) > 1:
+            r2["bonds"].insert(0, [0, 1, None, 1, 0, 1.0, {}])
+        r2["coords"].insert(0, [9.0, 9.0, 9.0])
+        r2["charges"].insert(0, 0.5)
+        o = build(r2)
+        o.del_atom(o.atoms[0])
+        return o, []
+    if how == "from-molecules" and kind == "ens" and rec["coords"]:
+        mols = []
+        for c, q in zip(rec["coords"], rec["charges"]):
+            mols.append(build({**rec, "kind": "mol", "coords": c, "charges": q}))
+        o = ml.ConformerEnsemble(mols)
+        o.weights = np.array(rec["weights"], dtype=float)
+        n = len(o.atoms)
+        other = ml.Molecule(list(reversed(o.atoms)), name="other", coords=np.zeros((n, 3)))
+        return o, [other, mols]
+    return build(rec), []
+
+
 # --------------------------------------------------------------------------------------
 # real library sessions
 # --------------------------------------------------------------------------------------
